@@ -130,7 +130,7 @@ def run(ctx):
     binp = ctx.go_build_test(PKG, FILES)
     rn = Runner(ctx, binp)
     cfgs = configs(ctx)
-    reps = ctx.pick(1, 3)
+    reps = ctx.pick(1, 2)
     pool = concurrent.futures.ThreadPoolExecutor(max_workers=min(8, vk.NCPU))
     tmpls = {cname(c): pool.submit(rn.prep, c) for c in cfgs}
     tmpls = {k: v.result() for k, v in tmpls.items()}
